@@ -6,7 +6,10 @@
     life cycle itself: removing a file that exists only in the lower layer sets its marker (and
     changes nothing else: the lower layer not at all), after which the overlay does not see it;
     re-creating a deleted top-level file removes the marker and yields an empty file, whatever the
-    lower layer holds.  Directories, subtrees and deeper re-creations are decided by the correspondence. *)
+    lower layer holds; re-creating a deleted top-level directory removes the marker and puts an empty
+    directory into the upper layer, and a directory of the upper layer whose lower-layer children
+    are all marked lists NOTHING (a re-created directory is empty).  Removal of directories and
+    subtrees and deeper re-creations are decided by the correspondence. *)
 From stdpp Require Import gmap list.
 From Coq Require Import NArith ZArith.
 From VFS Require Import Core.Types Core.Prog Core.Calls Base.MemFS Base.Handles Base.Store Layer.VfsPath Layer.Overlay
@@ -87,6 +90,25 @@ Theorem C10_recreated_file_is_fresh : forall lg ft (s0 s1 : gmap (list (list N))
   (mstore2 s0' s1 hs lg ft, Ok (mem_meta (mkMemFile File [] TAuto (Some TAuto) (Some TAuto)))).
 Proof. exact recreated_file_is_fresh. Qed.
 
+(** a re-created directory: the marker goes, an empty directory appears in the upper layer ... *)
+Theorem C10_recreated_dir_clears_marker : forall lg ft (s0 s1 : gmap (list (list N)) memfile) hs (n : list N) g,
+  wf s0 -> s0 !! whiteout_path (v0, []) [] = None ->
+  s0 !! whiteout_path (v0, []) [n] = Some g -> f_type g = File -> s0 !! [n] = None ->
+  run bhandler (ovl_impl (v0, []) [(v1, [])] (CCreateDir [n])) (mstore2 s0 s1 hs lg ft) =
+  (mstore2 (delete (whiteout_path (v0, []) [n]) (<[[n] := mkMemFile Dir [] TAuto (Some TAuto) (Some TAuto)]> s0)) s1 hs lg ft, Ok tt).
+Proof. exact recreate_dir_clears_marker. Qed.
+
+(** ... and it is empty: what the lower layer holds below it stays hidden by the markers of the
+    earlier removal - for a directory at any depth *)
+Theorem C10_recreated_dir_is_empty : forall lg ft (s0 s1 : gmap (list (list N)) memfile) hs (p : path),
+  parent_closed s0 -> p <> [] ->
+  s0 !! whiteout_path (v0, []) p = None -> is_dir s0 p ->
+  (s0 !! (whiteout_name :: p) = None \/ is_dir s0 (whiteout_name :: p)) ->
+  (forall c, s0 !! (p ++ [c]) = None) ->
+  (forall c, is_Some (s1 !! (p ++ [c])) -> is_Some (s0 !! whiteout_path (v0, []) (p ++ [c]))) ->
+  run bhandler (ovl_read_dir (v0, []) [(v1, [])] p) (mstore2 s0 s1 hs lg ft) = (mstore2 s0 s1 hs lg ft, Ok []).
+Proof. exact recreated_dir_is_empty. Qed.
+
 Example C10_example :
   whiteout_path (v0, [[117%N]]) [[97%N]; [98%N]] = [[117%N]; whiteout_name; [97%N]; [98%N; 95%N; 119%N; 111%N]] /\
   whiteout_path (v0, []) [] = [whiteout_name; wo_suffix].
@@ -101,3 +123,5 @@ Print Assumptions C10_removal_sets_marker.
 Print Assumptions C10_removed_is_absent.
 Print Assumptions C10_recreation_clears_marker.
 Print Assumptions C10_recreated_file_is_fresh.
+Print Assumptions C10_recreated_dir_clears_marker.
+Print Assumptions C10_recreated_dir_is_empty.
